@@ -11,6 +11,7 @@
 -/
 import Aqv.Lemmas.VmMain
 import Aqv.Lemmas.VmMemAccess
+import Aqv.Lemmas.VmPrecompile
 import Aqv.Lemmas.Translated.VmNat
 namespace Aqv.Props.C07
 open Aqv.Vm Aqv.Gen.VmFlags
@@ -399,6 +400,36 @@ example : ∃ f g db1, pre envSpring (⟨0x52, [0x40, 7], 2, true, false, false,
     ⟨1000, 2, ⟨0, 0⟩, 1000, 1, false⟩ db0 0 = .go f g 0x60 db1 ∧ f.execRanges = [(.back 0 0, .const 32)] ∧
     (paidFrame ⟨1000, 2, ⟨0, 0⟩, 1000, 1, false⟩ f g 0x60).mem.len = 0x60 := by
   refine ⟨_, _, _, rfl, rfl, rfl⟩
+
+/-! ## precompiles: buffers materialised from announced lengths are paid for -/
+
+/-- `modexp_alloc_bounded_by_gas`: for every input byte string and every gas budget below MaxUint64 under which
+    RunPrecompiledContract gets past `UseGas(RequiredGas(input))`, the bytes bigModExp.Run materialises from the three ANNOUNCED
+    lengths of the header (the getData buffers, each right-padded to its announced uint64 size, and the LeftPadBytes output;
+    nothing on the `baseLen == 0 && modLen == 0` early return) are at most 64·(gas charged + 1) + 32. The early return is
+    essential: with base and modulus length 0 the charged gas is 0 whatever exponent length is announced. -/
+theorem modexp_alloc_bounded_by_gas (input : Aqv.Bytes) (gas : Nat) (hgas : gas < Pre.two64 - 1)
+    (hrun : (Pre.runPrecompile 5 input gas).1 = true) :
+    Pre.modexpRunBuffers (Pre.hdrWord input 0) (Pre.hdrWord input 32) (Pre.hdrWord input 64)
+      ≤ 64 * (gas - (Pre.runPrecompile 5 input gas).2 + 1) + 32 := by
+  unfold Pre.runPrecompile at hrun ⊢
+  simp only at hrun ⊢
+  split at hrun
+  · cases hrun
+  · next hge =>
+    simp only [hge, if_false]
+    have hreq : Pre.requiredGas 5 input = Pre.modexpRequiredGas input := rfl
+    rw [hreq] at hge ⊢
+    have hcore := Pre.modexp_core (Pre.hdrWord input 0) (Pre.hdrWord input 32) (Pre.hdrWord input 64)
+      (Pre.msbOf (Pre.modexpExpHead input)) (Pre.modexpRequiredGas input) rfl (by omega)
+    omega
+
+-- header announcing baseLen = 0, expLen = 2^26, modLen = 0: gas 0, and (thanks to the early return) nothing materialised
+example : Pre.modexpGas 0 (2 ^ 26) 0 0 = 0 ∧ Pre.modexpRunBuffers 0 (2 ^ 26) 0 = 0 := by decide
+-- baseLen = 0, expLen = 2^16, modLen = 1: 26201 gas for 65538 materialised bytes
+example : Pre.modexpGas 0 (2 ^ 16) 1 0 = 26201 ∧ Pre.modexpRunBuffers 0 (2 ^ 16) 1 = 65538 := by decide
+-- hypotheses satisfiable: a 96-byte header (1, 1, 1) with 10000 gas runs and is charged 0 (1·1·1/20)
+example : (Pre.runPrecompile 5 ((List.replicate 31 0 ++ [1]) ++ (List.replicate 31 0 ++ [1]) ++ (List.replicate 31 0 ++ [1])) 10000) = (true, 10000) := by decide
 
 /-! ### tie by translation (T-gen `translated`, DESIGN 2.2 mini-translator)
 
